@@ -154,8 +154,9 @@ def check_rsum(ctx, prog):
            where=adt["span"], detail={"found": fields, "expected": LEXER_FIELDS})
     ftypes = {f["name"]: f["ty"] for f in adt["variants"][0]["fields"]}
     for f in LOC_TYPED:
-        ctx.ob("R-SUM", "field %s has type Loc" % f, ftypes.get(f) == "Loc", key="R-SUM:type:" + f)
-    loc = util.adt("Loc")
+        ctx.ob("R-SUM", "field %s has type Loc" % f, (ftypes.get(f) or "").rsplit("::", 1)[-1] == "Loc",
+               key="R-SUM:type:" + f)
+    loc = util.adt("Loc") or next((a for p, a in util.adts.items() if p.rsplit("::", 1)[-1] == "Loc"), None)
     ctx.ob("R-SUM", "Loc has fields line, col, byte_idx",
            loc is not None and [f["name"] for f in loc["variants"][0]["fields"]] == LOC_FIELDS,
            key="R-SUM:Loc")
@@ -681,13 +682,16 @@ def check_rtypes(ctx, prog):
                     name, f["name"], f["ty"][:60]), not bad, key="R-TYPES:%s.%s" % (name, f["name"]),
                     where=a["span"], detail=bad.group(0) if bad else None)
     impls = util.data["impls"]
+    def _last(t):
+        return t.split("<", 1)[0].rsplit("::", 1)[-1] + ("<" if "<" in t else "")
     for ty_prefix, what in (("Lexer<", "Lexer"), ("Loc", "Loc")):
         cl = [i for i in impls if i["trait"] == "std::clone::Clone"
-              and (i["self_ty"] == ty_prefix or i["self_ty"].startswith(ty_prefix))]
+              and (_last(i["self_ty"]) == ty_prefix or i["self_ty"] == ty_prefix
+                   or i["self_ty"].startswith(ty_prefix))]
         ctx.ob("R-TYPES", "impl Clone for %s exists and is derived (field-wise)" % what,
                len(cl) == 1 and cl[0]["derived"], key="R-TYPES:clone:" + what,
                where=cl[0]["span"] if cl else None)
-    cp = [i for i in impls if i["trait"] == "std::marker::Copy" and i["self_ty"] == "Loc"]
+    cp = [i for i in impls if i["trait"] == "std::marker::Copy" and i["self_ty"].rsplit("::", 1)[-1] == "Loc"]
     ctx.ob("R-TYPES", "Loc is Copy (locations are plain values)", len(cp) == 1, key="R-TYPES:copy:Loc")
     dr = [i for i in impls if i["trait"] == "std::ops::Drop"]
     ctx.ob("R-TYPES", "lexgen_util defines no Drop impl", not dr, key="R-TYPES:drop")
